@@ -53,6 +53,21 @@ def concretize(prop, ob):
             out.append(("valid_not_deleted", {"algorithm": a, "upper": False}))
     if name == "sync/acquired-identifier-is-free" and "class doc" in detail:
         out.append(("metadata_exclusion", {}))
+    if name.startswith("fault["):
+        # fault[<mode>]/<scenario>/<clause>; detail: "... after <prim>@mkloc(<kind>, ...)"
+        import re as _re
+        mode = name[6:name.index("]")]
+        scen = name[name.index("]/") + 2:name.rindex("/")]
+        m = _re.search(r"after ([a-z+\-]+)@mkloc\((\d+)", detail)
+        if m:
+            kinds = {"0": "obj", "1": "pidref", "2": "cidref", "3": "meta", "4": "tmp-obj",
+                     "5": "tmp-meta", "6": "tmp-refs"}
+            prim = m.group(1)
+            if prim == "read":
+                prim = "open-r"      # natively a failing read is injected at the open
+            out.append(("fault_call", {"scenario": scen, "prim": prim,
+                                       "target": kinds.get(m.group(2), "?"),
+                                       "persistent": mode == "persistent"}))
     if fn == "FileHashStore._clean_algorithm" and "acceptance-table" in name:
         want = None
         from_tab = detail if detail and " " not in detail else case[len("accepts:"):]
